@@ -21,6 +21,10 @@ def run(ctx):
     if not quick:
         q12 += [('stuck', 14, ['bad:c07-wrong-outcome-at-quiescence', 'bad:stranded'], wayf)]
     # waypoint: the abort of the first (rejected) transaction's proposal still under way while the second is committed behind it
+    # waypoint: the first transaction committed, the second validated with its commit under way; a process stop may fall between
+    # the two writes of that commit (a proposal that has a predecessor on its target)
+    wayv = {'pred': 'reach:w-CV', 'depth': 20, 'seed': {'pred': 'reach:w-C-', 'depth': 20}, 'variants': 1 if quick else 3}
+    q12 += [('stuck', 12, ['bad:c07-wrong-outcome-at-quiescence', 'bad:stranded'], wayv)]
     wayb = {'pred': 'reach:w-BC', 'depth': 22, 'seed': {'pred': 'reach:w-B-', 'depth': 22}, 'variants': 1 if quick else 3}
     q12 += [('stuck', 12, ['bad:c07-wrong-outcome-at-quiescence', 'bad:stranded'], wayb)]
     proto.run(ctx, 'C07', [('1x1c', c11, q11, []), ('1x2c', c12, q12, [])],
